@@ -394,6 +394,17 @@ func (g *gen) initCase() Input {
 		}
 	}
 	fix(in.Nodes)
+	if g.r.Chance(35) {
+		// a directory and a sibling whose name sorts between "<dir>" and "<dir>/": walk order differs from load order
+		var top []Node
+		for _, n := range in.Nodes {
+			if n.Name != "a" && n.Name != "a.sh" && n.Name != "a-b" {
+				top = append(top, n)
+			}
+		}
+		top = append(top, d("a", f("b", 0o755), f("hook.sh", 0o755)), f([]string{"a.sh", "a-b"}[g.r.Intn(2)], 0o755))
+		in.Nodes = top
+	}
 	if g.r.Chance(65) {
 		var fs []string
 		allFiles(in.Nodes, "", &fs)
@@ -406,10 +417,10 @@ func (g *gen) initCase() Input {
 	return in
 }
 
-func f(name string, mode int) Node            { return Node{Name: name, Mode: mode} }
-func d(name string, children ...Node) Node    { return Node{Name: name, Dir: true, Children: children} }
-func tr(root string, nodes ...Node) Input     { return Input{Root: root, Nodes: nodes} }
-func withInit(in Input, beh ...Beh) Input     { in.Init = true; in.Beh = beh; return in }
+func f(name string, mode int) Node         { return Node{Name: name, Mode: mode} }
+func d(name string, children ...Node) Node { return Node{Name: name, Dir: true, Children: children} }
+func tr(root string, nodes ...Node) Input  { return Input{Root: root, Nodes: nodes} }
+func withInit(in Input, beh ...Beh) Input  { in.Init = true; in.Beh = beh; return in }
 
 // Corpus: witnesses and past failures; runs first.
 func Corpus() []Input {
